@@ -189,8 +189,70 @@ fn check_index_full() {
     dataset!(SLD, "small::LightDataset");
 }
 
+/// bulk and pattern-based mutations against a set oracle, on every shipped set implementation: every subset of
+/// <= 3 of the 12 quads as the initial content; remove_matching / retain_matching with constant, multi-valued,
+/// Option, Any, negated and closure matchers on s / o / g; insert_all / remove_all of streams with duplicates,
+/// members and non-members; the returned counts are the numbers of quads really added / removed
+fn check_bulk<D: MutableDataset + Dataset + Default>(name: &str, init: &[Q]) where <D as MutableDataset>::MutationError: From<<D as Dataset>::Error> {
+    use sophia_api::term::matcher::Not;
+    let build = || { let mut d = D::default(); for q in init { d.insert(term(q.1), term(q.2), term(q.3), gname(q.0)).unwrap(); } d };
+    let content = |d: &D| -> BTreeSet<Q> { d.quads().map(|x| { let x = x.unwrap(); let r = (x.g().map(|t| tnum(&t.as_simple())).unwrap_or(0), tnum(&x.s().as_simple()), tnum(&x.p().as_simple()), tnum(&x.o().as_simple())); r }).collect() };
+    let set: BTreeSet<Q> = init.iter().cloned().collect();
+    let hist: Vec<(bool, Q)> = init.iter().map(|q| (true, *q)).collect();
+    macro_rules! pat { ($what:expr, $s:expr, $p:expr, $o:expr, $g:expr, $pred:expr) => {{
+        // remove_matching
+        let mut d = build();
+        let n = d.remove_matching($s, $p, $o, $g).unwrap();
+        let want: BTreeSet<Q> = set.iter().cloned().filter(|x| !($pred)(x)).collect();
+        let got = content(&d);
+        if got != want || n != set.len() - want.len() { fail(name, &hist, format!("remove_matching{} left {:?} (count {}) expected {:?} (count {})", $what, got, n, want, set.len() - want.len())); }
+        // retain_matching
+        let mut d = build();
+        d.retain_matching($s, $p, $o, $g).unwrap();
+        let want: BTreeSet<Q> = set.iter().cloned().filter(|x| ($pred)(x)).collect();
+        let got = content(&d);
+        if got != want { fail(name, &hist, format!("retain_matching{} left {:?} expected {:?}", $what, got, want)); }
+    }}}
+    pat!("([2],*,*,[g1])", [term(2)], Any, Any, [gname(1)], |x: &Q| x.1 == 2 && x.0 == 1);
+    pat!("(*,*,*,[default])", Any, Any, Any, [gname(0)], |x: &Q| x.0 == 0);
+    pat!("(*,*,*,Some(default))", Any, Any, Any, Some(gname(0)), |x: &Q| x.0 == 0);
+    pat!("(*,*,*,Some(g1))", Any, Any, Any, Some(gname(1)), |x: &Q| x.0 == 1);
+    pat!("(*,*,[3],[unknown graph])", Any, Any, [term(3)], [Some(unknown())], |_x: &Q| false);
+    pat!("([1],*,*,*)", [term(1)], Any, Any, Any, |x: &Q| x.1 == 1);
+    pat!("(*,[1],[1,3],[default,g1])", Any, [term(1)], [term(1), term(3)], [gname(0), gname(1)], |x: &Q| x.3 == 1 || x.3 == 3);
+    pat!("(Not([1]),*,*,Not([default]))", Not([term(1)]), Any, Any, Not([gname(0)]), |x: &Q| x.1 != 1 && x.0 != 0);
+    pat!("(*,*,closure literal,closure named)", Any, Any, |t: SimpleTerm| t.is_literal(), |g: GraphName<SimpleTerm>| g.is_some(), |x: &Q| x.3 == 3 && x.0 != 0);
+    pat!("(*,*,*,*)", Any, Any, Any, Any, |_x: &Q| true);
+    pat!("([unknown],*,*,*)", [unknown()], Any, Any, Any, |_x: &Q| false);
+    // insert_all / remove_all: streams with duplicates, members and non-members
+    let stream: Vec<Q> = vec![(0, 1, 1, 1), (1, 2, 1, 3), (0, 1, 1, 1), (1, 1, 1, 2), (1, 2, 1, 3)];
+    let as_quads = |v: &[Q]| -> Vec<sophia_api::quad::Spog<SimpleTerm<'static>>> { v.iter().map(|q| ([term(q.1), term(q.2), term(q.3)], gname(q.0))).collect() };
+    let mut d = build();
+    let n = d.insert_all(as_quads(&stream).quads()).unwrap();
+    let mut want = set.clone(); let mut added = 0; for q in &stream { if want.insert(*q) { added += 1; } }
+    if content(&d) != want || n != added { fail(name, &hist, format!("insert_all({:?}) gave {:?} (count {}) expected {:?} (count {})", stream, content(&d), n, want, added)); }
+    let mut d = build();
+    let n = d.remove_all(as_quads(&stream).quads()).unwrap();
+    let mut want = set.clone(); let mut removed = 0; for q in &stream { if want.remove(q) { removed += 1; } }
+    if content(&d) != want || n != removed { fail(name, &hist, format!("remove_all({:?}) gave {:?} (count {}) expected {:?} (count {})", stream, content(&d), n, want, removed)); }
+}
+
 fn main() {
     check_index_full();
+    {
+        use std::collections::{BTreeSet as BS, HashSet as HS};
+        use sophia_api::quad::Spog;
+        let qs = quads();
+        let mut inits: Vec<Vec<Q>> = vec![vec![]];
+        for a in 0..qs.len() { inits.push(vec![qs[a]]); for b in a + 1..qs.len() { inits.push(vec![qs[a], qs[b]]); for c in b + 1..qs.len() { inits.push(vec![qs[a], qs[b], qs[c]]); } } }
+        inits.push(qs.clone());
+        for init in &inits {
+            check_bulk::<FastDataset>("FastDataset", init);
+            check_bulk::<LightDataset>("LightDataset", init);
+            check_bulk::<HS<Spog<SimpleTerm<'static>>>>("HashSet<Spog>", init);
+            check_bulk::<BS<Spog<SimpleTerm<'static>>>>("BTreeSet<Spog>", init);
+        }
+    }
     let qs = quads();
     let mut ops: Vec<(bool, Q)> = vec![];
     for q in &qs { ops.push((true, *q)); ops.push((false, *q)); }
